@@ -151,6 +151,7 @@ def SORTED_UNIQUE_BY_ID(lst):
 
 @contract(_A + "API.to_dict", props=["C12", "C08"])
 class api_to_dict:
+    deductive = False
     safety = False
 
     @clause(mode="bounded")
